@@ -987,9 +987,14 @@ impl<'a> Iterator for ReachableIter<'a> {
                     {
                         None => None,
                         Some(n) => {
+                            // An unconditional stop (skip_byte > 128) is not a step of the
+                            // property list: it must not be counted even if it is reachable.
+                            let skipped = &self.program.instructions
+                                [this as usize + 1..this as usize + 1 + inc as usize];
                             let reachable_skipped: u8 =
                                 n.iter()
-                                .filter(|reachable| **reachable)
+                                .zip(skipped)
+                                .filter(|(reachable, i)| **reachable && !matches!(i.operation, Operation::EntrypointRedirect(_, _)))
                                 .count()
                                 .try_into()
                                 .expect("iterating over at most u8::MAX elements, so the count will be at most u8::MAX");
